@@ -1,6 +1,7 @@
-import importlib.util as _u, os as _o
-def _vf():
-    p=_o.path.join(_o.path.dirname(_o.path.dirname(_o.path.abspath(__file__))),'vf','jobs_common.py'); sp=_u.spec_from_file_location('vfj',p); m=_u.module_from_spec(sp); sp.loader.exec_module(m); return m
+import sys,os
+sys.path.insert(0,os.path.dirname(os.path.dirname(os.path.abspath(__file__))))
+from jobs_lib import vf,blk,other
 def jobs(tier):
-    return [j for j in _vf().vf_jobs(tier) if 'C03' in j.tags]
-CLAIM=None
+    return vf(tier,'C03')
+CLAIM={'text':'Per-function bounded model checking of vorbisfile from arbitrary handle states satisfying the representation invariant, callees cut to contract stubs that assert their preconditions: open/clear, the I/O leaf functions, backward page search (termination by recurrence check), packet fetch, page seek, sample seek, half-rate toggle, cross-lap argument plumbing.',
+ 'note':'Trusted: libogg framing and the libvorbis decode API as nondeterministic contract stubs (harness/vf/vf_env.h), callbacks nondeterministic with fault injection. Per-function (not whole-program) composition; <=3 links, <=4-6 framing events per call, <=3 pages per link. Not yet covered: _fetch_headers, _bisect_forward_serialno/_open_seekable2 (chain discovery), ov_raw_seek scan loop, ov_read_float, info accessors, _ov_getlap/_ov_splice bodies.'}
